@@ -116,6 +116,7 @@ pub fn step_strategy(reg: Reg, class_c: bool, allow_join: bool) -> impl Strategy
         (1, any::<bool>().prop_map(Step::SetAdr).boxed()),
         (1, prop_oneof![3 => Just(false), 1 => Just(true)].prop_map(Step::SetDrain).boxed()),
         (1, prop_oneof![3 => 1u16..8, 1 => 90u16..140].prop_map(Step::Silence).boxed()),
+        (1, any::<bool>().prop_map(|serde| Step::HandBack { serde }).boxed()),
     ];
     if class_c {
         v.push((1, any::<bool>().prop_map(Step::SetClassC).boxed()));
